@@ -425,6 +425,28 @@ EXTRA7 = {
     "C18": "A task-filtered remodel run on files named the BIDS way (task-go), with edits after the backup.",
     "C19": "H6 monitor: downloads happen while the refresher holds the lock.",
 }
+EXTRA8 = {
+    "C01": "Duration / Delay groups with two inner groups; one validator object through many strings.",
+    "C02": "Letter-case folds of base tags in every context; nesting to depth 200.",
+    "C03": "A partnered library built on the cached standard schema: identification through both objects in turn; a prefix with a capital letter.",
+    "C04": "Doubled wrapping; descriptions and labels with blanks as raw leaves.",
+    "C05": "Files with non-ASCII text written and read under LC_ALL=C.",
+    "C06": "A sidecar entry replaced in place between assemblies; a cell that resembles a key.",
+    "C07": "Delayed-group rows in every file order; non-numeric onset texts in every row order.",
+    "C08": "Hyphenated and capitalised referenced columns; one definition list shared by consecutive validations.",
+    "C09": "The same placeholder tag twice in one definition; non-ASCII duplicate names.",
+    "C10": "Onsets chained 0.8 ns apart; definition names whose lower() and casefold() differ.",
+    "C11": "Literals only float() accepts; conversion of bare numbers.",
+    "C12": "Unordered tables with warnings off; mixed row / column context keys in the sort.",
+    "C13": "Definitions expanded and shrunk under a prefixed schema; generated libraries sharing a unit class.",
+    "C14": "Prologue / epilogue characters with warnings off.",
+    "C15": "Group objects taken out of an annotation searched on their own; dotted terms.",
+    "C16": "A directory differing only in letter case from an excluded name.",
+    "C17": "Adjacent runs differing in a match column.",
+    "C18": "Two directory levels deleted before a restore; backups holding hidden directories.",
+    "C19": "H10 / H10c readers of the bundled library data (interrupted at every point, interleaved); H8l a bundled library schema under a slow lock holder.",
+    "C20": "Row labels 1..n; listed processes keep the schema prefix.",
+}
 for _k, _v in EXTRA3.items():
     EXTRA[_k] = EXTRA.get(_k, "") + ("  " if _k in EXTRA else "") + _v
 for _k, _v in EXTRA4.items():
@@ -434,6 +456,8 @@ for _k, _v in EXTRA5.items():
 for _k, _v in EXTRA6.items():
     EXTRA[_k] = EXTRA.get(_k, "") + ("  " if _k in EXTRA else "") + _v
 for _k, _v in EXTRA7.items():
+    EXTRA[_k] = EXTRA.get(_k, "") + ("  " if _k in EXTRA else "") + _v
+for _k, _v in EXTRA8.items():
     EXTRA[_k] = EXTRA.get(_k, "") + ("  " if _k in EXTRA else "") + _v
 for _k, _v in EXTRA.items():
     CHECKS[_k]["text"] += "  Extended: " + _v
